@@ -29,7 +29,7 @@ func snapshotDiff(a, b map[string]sdk.Coins) string {
 
 func runC05(c *vk.Ctx) {
 	c.R.Rule = "cases = histories over the pool zoo of C02 (balancer, stableswap and concentrated pools, random per-pair taker fees 0..5%, default taker fee, reduced-fee whitelist) in which, after arbitrary prior activity, routed swaps over 1..4 distinct pools are probed on discarded branches: (i) routed exact-in vs the hops executed one by one; routed exact-out vs backward single-hop estimates + forward single-hop exact-out; (ii) split routes vs their legs executed in order; (iii) estimate vs execution with a digest of the pool stores around the estimate; (iv) limits set to estimate−1 / estimate / estimate+1: a successful swap's balance deltas must respect TokenOutMinAmount / TokenInMaxAmount (total paid by the sender, taker fee included), and the accept/reject side must match the estimate. distinct_nontrivial counts distinct (probe kind, pool kinds of the route, taker fee on the route?, whitelisted sender?, limit offset, outcome) tuples."
-	nHist := c.N(90, 7200)
+	nHist := c.N(720, 7200)
 	probesPer := c.N(24, 80)
 	c.Cases("history", nHist, func(i int, r *vk.Rng) {
 		w := newGMWorld(c, r)
